@@ -453,7 +453,12 @@ class Evidence:
         doc = {"property_id": self.prop, "tier": self.tier, "seed": self.seed, "level": self.level,
                "coverage": self.cov, "assumptions": self.assumptions, "wall_s": round(time.time() - self.t0, 2),
                "violations": self.violations}
-        with open(os.path.join(EVID, self.prop + ".json"), "w") as f:
+        part = os.environ.get("VERIF_EVIDENCE_PART")
+        path = os.path.join(EVID, self.prop + ".json")
+        if part:   # a property decided by several layers: ./check merges the parts
+            os.makedirs(os.path.join(OUT, "evidence_parts"), exist_ok=True)
+            path = os.path.join(OUT, "evidence_parts", "%s.%s.json" % (self.prop, part))
+        with open(path, "w") as f:
             json.dump(doc, f, indent=1, sort_keys=True)
             f.write("\n")
 
